@@ -190,3 +190,35 @@ func TestDeadlockDespiteParkedWorker(t *testing.T) {
 		t.Fatalf("want a deadlock, got %v", fs)
 	}
 }
+
+// A worker driven by a ticker never goes quiet by itself. Ticks are delivered while a
+// harness task waits for something, and ignored once only the worker (and a joiner) is left.
+func TestTickerWorker(t *testing.T) {
+	sc := Scenario{Name: "t", New: func() Instance {
+		return &chanInst{body: func(log *[]string) {
+			tk := NewTicker(10)
+			buf := MakeChan(make(chan int, 8))
+			flushed := MakeChan(make(chan int, 8))
+			GoLib(func() {
+				for {
+					switch Select(false, tk.C) {
+					case 0:
+						for {
+							if SelectG(true, RecvCase(buf)) != 0 {
+								break
+							}
+							Send(flushed, SelVal[int](buf))
+						}
+					}
+				}
+			})
+			Go(func() { Send(buf, 1); logAdd(log, fmt.Sprint(RecvT[int](flushed))) })
+			Join()
+			logAdd(log, "joined")
+		}}
+	}}
+	st, fs := Explore(sc, Opts{Bound: 2, Recheck: 1})
+	if len(fs) != 0 || len(st.Outcomes) != 1 || st.Outcomes["[1 joined]"] == 0 {
+		t.Fatalf("findings %v outcomes %v", fs, st.Outcomes)
+	}
+}
